@@ -591,6 +591,9 @@ def run(ctx):
             fo, fw = flag_ok(info.get("converged"), rn[-1] if rn else None, dec.log)
             ctx.ob("C13.D1.flag", tag, fo, fw, where=f_cg.where, construct="cgne converged flag", loc=f_cg.loc())
 
+    # ================================================================= CG micro-solver: columns are solved independently
+    _check_cg_micro(ctx, prog, c_rsp)
+
     ctx.require_instances("C13.D3.column-step", 6)
     ctx.require_instances("C13.D3.row-step", 4)
     ctx.require_instances("C13.D3.hyperpower", 4)
@@ -600,3 +603,86 @@ def run(ctx):
     ctx.require_instances("C13.D1.proxy", 12)
     ctx.require_instances("C13.D2.atomic", 2)
     ctx.require_instances("C13.D4.orientation", 4)
+
+
+def _check_cg_micro(ctx, prog, c_rsp):
+    """_solve_spd_quat solves G X = B column by column with CG started from x = 0.  After k CG steps column j of the result
+    is the k-th CG iterate for (G, B[:, j]); in particular it depends on no other column of B (a solution carried over between
+    columns leaves the row space of A^H: the proxy still converges while X != A^+)."""
+    from qstatic.dom_sym import sym_quat, arrays_same, mk, wrap
+    from qstatic.alg import SQ
+    from .common import new_interp
+    f = prog.func("solver", "RandomizedSketchProjectPseudoinverse._solve_spd_quat")
+    ctx.touch(f)
+    r, m = 2, 2
+    for steps in (1,):
+        it, d = new_interp(ctx, chooser=lambda interp, node, cond: False)
+        G = sym_quat("g", (r, r))
+        B = sym_quat("b", (r, m))
+        inst = Instance(c_rsp, dict(block_size=2, max_iter=1, tol=TOL, test_sketch_size=2, verbose=False, seed=None,
+                                    column_solver="spd"))
+        st, out = run_guarded(lambda: it.run(f, [G, B], dict(tol=Poly.atom("cgtol"), max_iter=steps), bound_self=inst))
+        tag = f"_solve_spd_quat cg-steps={steps}"
+        if st != "ok":
+            ctx.ob("C13.D3.micro-solver", tag, False, f"fails in-domain: {out}", where=f.where, construct="CG micro-solver fails",
+                   loc=f.loc())
+            continue
+        X, okflag = out
+        # symmetrised matrix used by the routine
+        Gs = mk((r, r), "quat")
+        for i in range(r):
+            for j in range(r):
+                Gs[i, j] = (G[i, j] + G[j, i].conjugate()) * SQ(Poly.const(1) / 2)
+
+        def rinner(u, v):
+            s_ = Poly.const(0)
+            for a_, b_ in zip(u, v):
+                s_ = s_ + (a_.conjugate() * b_).c[0]
+            return s_
+
+        ok, why = True, ""
+        for j in range(m):
+            b = [B[i, j] for i in range(r)]
+            x = [SQ() for _ in range(r)]
+            rv = list(b)
+            p = list(b)
+            rsold = rinner(rv, rv)
+            for _ in range(steps):
+                Ap = [sum((Gs[i, k] * p[k] for k in range(r)), SQ()) for i in range(r)]
+                pAp = rinner(p, Ap)
+                alpha = rsold / pAp
+                x = [xi + pi * SQ(alpha) for xi, pi in zip(x, p)]
+                rv = [ri - ai * SQ(alpha) for ri, ai in zip(rv, Ap)]
+                rsnew = rinner(rv, rv)
+                beta = rsnew / rsold
+                p = [ri + pi * SQ(beta) for ri, pi in zip(rv, p)]
+                rsold = rsnew
+            got = [SQ.lift(X[i, j]) for i in range(r)]
+            if not all(g_.same(x_) for g_, x_ in zip(got, x)):
+                # name the reason when another column leaks in
+                others = {("b", i, jj, pp) for i in range(r) for jj in range(m) if jj != j for pp in range(4)}
+                leak = set()
+                for g_ in got:
+                    for c_ in g_.c:
+                        leak |= (_deep_atoms(c_) & others)
+                ok = False
+                why = (f"column {j} of the solution depends on other right-hand-side columns (solution carried over between columns)"
+                       if leak else f"column {j} is not the CG iterate started from x = 0")
+                break
+        ctx.ob("C13.D3.micro-solver", tag, ok, why, where=f.where, construct="CG micro-solver: columns not solved independently from x = 0",
+               loc=f.loc())
+    ctx.require_instances("C13.D3.micro-solver", 1)
+
+
+def _deep_atoms(p):
+    out = set()
+
+    def walk(x):
+        if isinstance(x, tuple):
+            if len(x) == 4 and x[0] == "b" and all(isinstance(v, int) for v in x[1:]):
+                out.add(x)
+            for y in x:
+                walk(y)
+    for a in P(p).atoms():
+        walk(a)
+    return out
